@@ -22,7 +22,12 @@ OpenEv == Step /\ e.ev = "dopen" /\ (e.err = "" \/ e.headDamaged) = TRUE
 ReadEv == /\ Step /\ e.ev = "dread"
           /\ (DamagedReadOK(e.expected, e.touches, e.other, e.r) /\ AllocOK(e.alloc, e.fileBytes)) = TRUE
 
-TNext == (Config \/ Reset \/ RecoverEv \/ CheckEv \/ CheckAfter \/ OpenEv \/ ReadEv) /\ UNCHANGED vars
+\* a file cut short: whatever is returned is a published message, unchanged; no panic
+TruncEv == /\ Step /\ e.ev = "dtrunc"
+           /\ (e.r.err # "Panic" /\ (\A i \in 1..Len(e.r.msgs) : e.r.msgs[i] \in Range(e.all))
+                /\ AllocOK(e.alloc, e.fileBytes)) = TRUE
+
+TNext == (Config \/ Reset \/ RecoverEv \/ CheckEv \/ CheckAfter \/ OpenEv \/ ReadEv \/ TruncEv) /\ UNCHANGED vars
 TSpec == TInit /\ [][TNext]_<<l, vars>>
 Accepted == /\ PrintT(<<"TRACE-DEPTH", TLCGet("stats").diameter - 1, Len(Trace)>>)
             /\ TLCGet("stats").diameter - 1 = Len(Trace)
